@@ -3,6 +3,7 @@ package main
 // Calls: builtins, conversions, contract application, abstraction.
 
 import (
+	"sort"
 	"fmt"
 	"go/ast"
 	"go/token"
@@ -107,6 +108,7 @@ func (x *Exec) call(e *ast.CallExpr, st *State) Value {
 	res := x.callWith(e, st, recvVal, argVals)
 	x.bumpFrontier(st)
 	x.recordCall(e, st, argVals, res)
+	x.havocEscaped(st)
 	async := false
 	if fn := x.calleeOf(e); fn != nil {
 		if c := x.eng.contractFor(fn); c != nil && c.Opts["async"] == "true" {
@@ -1102,4 +1104,26 @@ func (x *Exec) fieldType(pt types.Type, field string) types.Type {
 		}
 	}
 	return nil
+}
+
+// havocEscaped: locals whose address was handed out as an opaque pointer may
+// have been assigned by the call that just returned.
+func (x *Exec) havocEscaped(st *State) {
+	if len(x.escaped) == 0 {
+		return
+	}
+	var vs []*types.Var
+	for v := range x.escaped {
+		vs = append(vs, v)
+	}
+	sort.Slice(vs, func(i, j int) bool { return vs[i].Pos() < vs[j].Pos() })
+	for _, v := range vs {
+		if _, have := st.vars[v]; !have {
+			continue
+		}
+		if _, isBx := st.vars[v].(Bx); isBx {
+			continue
+		}
+		st.vars[v] = x.fresh(st, v.Type(), v.Name())
+	}
 }
